@@ -227,6 +227,31 @@ def cases(tier):
                 idx += 1
                 yield {'fam': 'samename', 'handlers': names, 'order': order,
                        'syntax': SYNTAXES[idx % 3]}
+    # empty bodies: a matching handler without content still handles, an
+    # empty else / finally / try body changes nothing else
+    eh = [['HA'], ['HB'], ['HX'], []]
+    for k in (1, 2):
+        for hs in itertools.product(range(len(eh)), repeat=k):
+            names = [eh[i] for i in hs]
+            if sum(1 for n in names if not n) > 1:
+                continue
+            for br in [None] + CLS:
+                for els in (None, 'plain'):
+                    parts = ['body'] + ['h%d' % i for i in range(k)] + \
+                        (['else'] if els else [])
+                    for m in range(1, len(parts) + 1):
+                        for empt in itertools.combinations(parts, m):
+                            idx += 1
+                            yield {'fam': 'flat', 'handlers': names,
+                                   'br': None if 'body' in empt else br,
+                                   'hr': None, 'else': els,
+                                   'empty': list(empt),
+                                   'syntax': SYNTAXES[idx % 3]}
+    for ba in (None, 'HB', 'return'):
+        for empt in (['body'], ['fin'], ['body', 'fin']):
+            for sx in SYNTAXES:
+                yield {'fam': 'fin', 'ba': None if 'body' in empt else ba,
+                       'fa': None, 'empty': empt, 'syntax': sx}
     # finally
     for ba in [None, 'return'] + CLS:
         for fa in [None, 'return'] + CLS:
@@ -321,8 +346,17 @@ def build(case):
     if fam == 'flat':
         node = flat_try(case['br'], case['handlers'], case['hr'],
                         case['else'])
+        for e in case.get('empty', []):
+            if e == 'body':
+                node[1] = []
+            elif e == 'else':
+                node[3] = []
+            else:
+                node[2][int(e[1:])][1] = []
     elif fam == 'fin':
         node = fin_try(case['ba'], case['fa'])
+        for e in case.get('empty', []):
+            node[1 if e == 'body' else 2] = []
     elif fam == 'nest2':
         ms = mini(None)
         inner = build_mini(ms[case['inner']], 8)
